@@ -474,7 +474,55 @@ pub struct CompCase {
 
 pub struct CompCheck;
 
-const N_COMPONENTS: u8 = 34;
+const N_COMPONENTS: u8 = 35;
+
+/// A user-style mutation that validates AFTER writing: the solution of individual `fail_at` is already modified when
+/// `mutate` reports the error. Run through the crate's default `mutation::mutation` driver.
+#[derive(Clone, Serialize)]
+pub struct WriteThenFail {
+    pub fail_at: usize,
+    #[serde(skip)]
+    pub calls: Arc<Mutex<usize>>,
+}
+
+impl mutation::Mutation<RealP> for WriteThenFail {
+    fn mutate(&self, solution: &mut Vec<f64>, _problem: &RealP, _state: &mut State<RealP>) -> ExecResult<()> {
+        let mut k = self.calls.lock().unwrap();
+        let i = *k;
+        *k += 1;
+        for x in solution.iter_mut() {
+            *x += 0.25;
+        }
+        if i == self.fail_at {
+            return Err(eyre::eyre!("validation failed after the write"));
+        }
+        Ok(())
+    }
+}
+
+impl Component<RealP> for WriteThenFail {
+    fn execute(&self, problem: &RealP, state: &mut State<RealP>) -> ExecResult<()> {
+        mutation::mutation(self, problem, state)
+    }
+}
+
+/// `x` moved by `k` representable values (k < 0: towards -inf)
+fn nudge(x: f64, k: i64) -> f64 {
+    let mut v = x;
+    for _ in 0..k.unsigned_abs() {
+        v = if k > 0 { next_up(v) } else { -next_up(-v) };
+    }
+    v
+}
+fn next_up(x: f64) -> f64 {
+    if x == 0.0 {
+        f64::from_bits(1)
+    } else if x > 0.0 {
+        f64::from_bits(x.to_bits() + 1)
+    } else {
+        f64::from_bits(x.to_bits() - 1)
+    }
+}
 
 impl Check for CompCheck {
     type Case = CompCase;
@@ -482,12 +530,12 @@ impl Check for CompCheck {
         "C05/components".into()
     }
     fn classes(&self) -> &'static [&'static str] {
-        &["population >= 2", "component changed a solution"]
+        &["population >= 2", "component changed a solution", "coordinates within a few representable values of a domain bound", "operator fails after writing"]
     }
     fn oracle(&self, c: &CompCase) -> Outcome {
         let mut cl = 0;
         let r = comp_oracle(c, &mut cl);
-        Outcome::new(cl == 3, cl, r)
+        Outcome::new(cl & 3 == 3, cl, r)
     }
 }
 
@@ -520,8 +568,12 @@ fn run_one<P: Instrumented + 'static>(problem: &P, comp: Box<dyn Component<P>>, 
         comp.init(problem, &mut state)?;
         comp.execute(problem, &mut state)
     });
+    if let Ok(Err(_)) = &r {
+        // whatever is left in the state after a reported error must still be consistent
+        return audit_state(problem, &state, name, at);
+    }
     if !matches!(r, Ok(Ok(()))) {
-        return Ok(()); // errors / panics on these inputs are C11-C14's subject
+        return Ok(()); // panics on these inputs are C11-C14's subject
     }
     if sols_of(&state) != before {
         *cl |= 2;
@@ -546,12 +598,44 @@ fn comp_oracle(c: &CompCase, cl: &mut u64) -> Result<(), Failure> {
         (s >> 11) as f64 / (1u64 << 53) as f64
     };
     match which {
-        0..=21 => {
-            let problem = RealP::new(dim, -5.0, 5.0, RealKind::Rastrigin);
+        0..=21 | 34 => {
+            // variant 0: wide domain, Rastrigin, coordinates anywhere in or slightly outside the domain;
+            // variants 1-3: narrow domains (bounds of magnitude <= 1, where neighbouring floats are <= EPSILON apart),
+            // an objective that depends on every bit of the solution, and most coordinates within two representable
+            // values of a bound (or denormal-close to a bound 0)
+            let variant = (c.seed >> 61) % 4;
+            let (lo, hi, kind) = match variant {
+                0 => (-5.0, 5.0, RealKind::Rastrigin),
+                1 => (-1.0, 1.0, RealKind::Fingerprint),
+                2 => (0.0, 1.0, RealKind::Fingerprint),
+                _ => (-0.5, 0.25, RealKind::Fingerprint),
+            };
+            if variant != 0 {
+                *cl |= 4;
+            }
+            let problem = RealP::new(dim, lo, hi, kind);
             let mut mk = |n: usize| -> Vec<Individual<RealP>> {
                 (0..n)
                     .map(|_| {
-                        let sol: Vec<f64> = (0..dim).map(|_| -6.0 + 12.0 * next()).collect();
+                        let sol: Vec<f64> = (0..dim)
+                            .map(|_| {
+                                if variant == 0 {
+                                    return -6.0 + 12.0 * next();
+                                }
+                                let r = next();
+                                if r < 0.3 {
+                                    lo - 0.2 * (hi - lo) + 1.4 * (hi - lo) * next()
+                                } else {
+                                    let b = if next() < 0.5 { lo } else { hi };
+                                    let k = (next() * 5.0) as i64 - 2;
+                                    if b == 0.0 && next() < 0.5 {
+                                        [-1e-300, 1e-300, -f64::MIN_POSITIVE, -0.0, -1e-17][(next() * 5.0) as usize % 5]
+                                    } else {
+                                        nudge(b, k)
+                                    }
+                                }
+                            })
+                            .collect();
                         let o = problem.f(&sol);
                         Individual::new(sol, o.try_into().unwrap())
                     })
@@ -580,6 +664,11 @@ fn comp_oracle(c: &CompCase, cl: &mut u64) -> Result<(), Failure> {
                 18 => ("RandomReplacement", replacement::RandomReplacement::new::<RealP>(2), vec![pop, mk(2)]),
                 19 => ("RouletteWheel", selection::RouletteWheel::new::<RealP>(3, 0.1), vec![pop]),
                 20 => ("FullyRandom", selection::FullyRandom::new::<RealP>(3), vec![pop]),
+                34 => {
+                    *cl |= 8;
+                    let fail_at = if size == 0 { 0 } else { (c.seed >> 8) as usize % (size + 1) };
+                    ("mutation::mutation with a Mutation that fails after writing", Box::new(WriteThenFail { fail_at, calls: Arc::new(Mutex::new(0)) }), vec![mk(2), pop])
+                }
                 _ => ("EventHorizon", replacement::bh::EventHorizon::new::<RealP>(), vec![pop]),
             };
             let mut st = state_with(pops, c.seed);
@@ -647,7 +736,7 @@ fn comp_oracle(c: &CompCase, cl: &mut u64) -> Result<(), Failure> {
 }
 
 pub fn run_all(ctx: &mut Ctx, replay: Option<&Path>) {
-    ctx.rule("(a) individual-level: histories of new/new_unevaluated/evaluate_with (two different objective functions)/set_objective/solution_mut (with and without a change)/clone/clone_from/Vec::clone_from/clone_from_slice/into_solution/as_solutions/as_solutions_mut/into_single(_ref)/best_individual/into_individuals/moves through the population stack over 3 slots against an evaluated-flag model, probing is_evaluated/get_objective/objective()/solution after every step; non-trivial = solution_mut on an evaluated individual followed by a read. (b) run-level: every shipped template with valid parameters; after EVERY component execution every individual reachable in any scope (population stack, best-so-far, archive, swarm and molecule memories) that is evaluated must carry bit-exactly f(solution); non-trivial = run with >= 3 passes in which some step changed a solution. (c) component-level: 34 shipped components on prepared evaluated populations, same audit; distinct by case");
+    ctx.rule("(a) individual-level: histories of new/new_unevaluated/evaluate_with (two different objective functions)/set_objective/solution_mut (with and without a change)/clone/clone_from/Vec::clone_from/clone_from_slice/into_solution/as_solutions/as_solutions_mut/into_single(_ref)/best_individual/into_individuals/moves through the population stack over 3 slots against an evaluated-flag model, probing is_evaluated/get_objective/objective()/solution after every step; non-trivial = solution_mut on an evaluated individual followed by a read. (b) run-level: every shipped template with valid parameters; after EVERY component execution every individual reachable in any scope (population stack, best-so-far, archive, swarm and molecule memories) that is evaluated must carry bit-exactly f(solution); non-trivial = run with >= 3 passes in which some step changed a solution. (c) component-level: 34 shipped components on prepared evaluated populations (real-valued ones also on narrow domains with coordinates within two representable values of a bound and an objective that depends on every bit of the solution), plus the crate's `mutation::mutation` driver around a harness Mutation that reports an error after it has written to the solution (the state left behind by the Err is audited too), same audit; distinct by case");
     ctx.assume("the harness objective is a pure function of the solution; set_objective is only used with f(solution)");
     let i = IndCheck;
     let c = CompCheck;
